@@ -263,10 +263,13 @@ extern "C" void cbmc_main() {
     }
     // idempotent definition registration through the public front end
     {
-        std::size_t before = meth::fn.specs.size();
+        auto count = []() { int n = 0; for (auto& node : meth::fn.specs) { (void)node; if (++n > 5) break; } return n; };  // bounded (at most 4 legitimate nodes): a corrupted list may be cyclic
+        int before = count();
         meth::add_function<def_fn> r1;
-        meth::add_function<def_fn> r2;
-        verif_assert(meth::fn.specs.size() == before + 1, 28);
+        int after1 = count();
+        meth::add_function<def_fn> r2;   // the same definition again (e.g. from another translation unit): must be ignored
+        meth::add_function<def_fn> r3;
+        verif_assert(after1 == before + 1 && count() == before + 1, 28);
     }
     VERIF_COVER(999);
 }
